@@ -196,6 +196,10 @@ class HTTP(BaseComponent):
     def _on_disconnect(self, sock):
         if sock in self._clients:
             del self._clients[sock]
+        # the parser of a message that was never completed (or was answered
+        # with an error) must not outlive the connection
+        if sock in self._buffers:
+            del self._buffers[sock]
 
     @handler('read')  # noqa
     def _on_read(self, sock, data):
